@@ -13,7 +13,7 @@ from vdrive import c12, searchlib
 from vdrive.core import fp
 from vmon import base, m_bijection, m_spec
 from vref import words as rw
-from vuniv import gen, intuniv, words
+from vuniv import finlang, gen, intuniv, words
 
 PROPERTY = "C13"
 LEVEL = "exploration"
@@ -38,9 +38,9 @@ FLOORS = {
                                                    "finder.start_not_representative": 800}},
 }
 CASE_TIMEOUT = {"quick": 90, "thorough": 180}
-SIZES = {"quick": 600, "thorough": 10000}
+SIZES = {"quick": 700, "thorough": 10000}
 KINDS = ("relabel", "relabel", "redundant", "repack", "repack", "same", "unrelated", "near", "near", "onesided",
-         "onesided", "onesided", "onesided", "symne", "symne")
+         "onesided", "onesided", "onesided", "symne", "symne", "finlang", "finlang", "finlang", "finlang")
 
 
 # experiment knob (never set by the registered commands): restrict the generated pair kinds
@@ -62,9 +62,12 @@ def shard_setup(tier):
         orig = cls.__dict__["_search_matching_info"]
 
         def wrapped(self, matching_info, _orig=orig):
+            # (recorded before the call as well: the search may end in an exception)
+            _LAST_SECOND_SEARCH.update(info=matching_info, res=None, roots=(self._pi1.root_eq_label,
+                                                                           self._pi2.root_eq_label),
+                                       empty_entries=sum(1 for v in matching_info.values() if not v))
             res = _orig(self, matching_info)
-            _LAST_SECOND_SEARCH.update(info=matching_info, res=res, roots=(self._pi1.root_eq_label,
-                                                                          self._pi2.root_eq_label))
+            _LAST_SECOND_SEARCH.update(res=res)
             return res
 
         cls._search_matching_info = wrapped
@@ -106,7 +109,9 @@ def unmatched_descendants():
             continue
         order = info.get((a, c), {}).get((ch1, ch2)) if (a, c) in info else None
         if order is None:
-            return True
+            # two rules assigned to a pair of labels for which the first search recorded other
+            # matchings (the open finding) - or a pair for which it recorded none at all
+            return "never-matched-pair" if not info.get((a, c)) else True
         todo.extend((ch1[i], c2) for i, c2 in zip(order, ch2))
     return False
 
@@ -119,7 +124,12 @@ def corpus_cases():
 
     path = os.path.join(os.path.dirname(os.path.dirname(os.path.abspath(__file__))), "corpus", "c13_context.json")
     with open(path) as f:
-        return json.load(f)
+        out = json.load(f)
+    # ... and finite-language pairs (tools/mine_c13_finlang.py) on which the first search meets a
+    # pair of labels again after failing to match it, plus the pairs sub-agents wrote down
+    with open(os.path.join(os.path.dirname(path), "c13_finlang.json")) as f:
+        out += json.load(f)
+    return out
 
 
 def gen_cases(tier, seed):
@@ -127,12 +137,41 @@ def gen_cases(tier, seed):
     produced = 0
     if not ONLY_KINDS:
         for c in corpus_cases():
-            yield dict(c, id=produced, variant="eqpath", N=N[tier])
+            yield dict(c, id=produced, variant=c.get("variant", "eqpath"), N=N[tier])
             produced += 1
     while produced < SIZES[tier]:
         rng = intuniv.rng_for(seed, "C13", i)
         i += 1
         kind = rng.choice(ONLY_KINDS or KINDS)
+        if kind == "finlang":
+            # finite languages: several competing rules per class, two symmetries that merge
+            # classes differently, each side with its own strategies
+            lang = finlang.rand_language(rng)
+            if len(lang) < 2:
+                continue
+            r = rng.random()
+            if r < 0.3:
+                lang2 = lang
+            elif r < 0.45:
+                lang2 = [w.translate(str.maketrans("ab", "ba")) for w in lang]
+            elif r < 0.55:
+                lang2 = [w[::-1] for w in lang]
+            else:
+                # a near variant: one or two words dropped, added or replaced (the two universes
+                # then agree on most classes and fail to match on a few)
+                lang2 = list(lang)
+                for _ in range(rng.choice((1, 1, 2))):
+                    op = rng.random()
+                    if op < 0.4 and len(lang2) > 2:
+                        lang2.remove(rng.choice(lang2))
+                    if op > 0.25:
+                        lang2.append("".join(rng.choice("ab") for _ in range(rng.randint(1, 4))))
+                lang2 = sorted(set(lang2))
+            yield {"id": produced, "kind": kind, "lang1": lang, "side1": finlang.rand_side(rng),
+                   "lang2": sorted(lang2), "side2": finlang.rand_side(rng),
+                   "variant": rng.choice(("plain", "eqpath")), "N": N[tier]}
+            produced += 1
+            continue
         c1 = gen.rand_class(rng, max_alpha=2 if rng.random() < 0.85 else 3, max_stats=rng.choice((0, 0, 1)), bytes_p=0)
         if rw.is_empty(c1):
             continue
@@ -263,8 +302,14 @@ def run_case(case):
 
     cx = base.ctx()
     m_bijection.CONFIG["N"] = min(case["N"], 6)
-    s1 = gen.build_searcher({"cls": case["c1"], "pack": case["p1"], "db": "base"})
-    s2 = gen.build_searcher({"cls": case["c2"], "pack": case["p2"], "db": "base"})
+    fin = case["kind"] == "finlang"
+    if fin:
+        s1 = finlang.make_searcher(case["lang1"], case["side1"]["exp"], case["side1"]["sym"])
+        s2 = finlang.make_searcher(case["lang2"], case["side2"]["exp"], case["side2"]["sym"])
+        cx.count("finder.finite_language_pairs")
+    else:
+        s1 = gen.build_searcher({"cls": case["c1"], "pack": case["p1"], "db": "base"})
+        s2 = gen.build_searcher({"cls": case["c2"], "pack": case["p2"], "db": "base"})
     pk1, pk2 = s1.strategy_pack, s2.strategy_pack
     m_spec.set_context(packs=[pk1, pk2], judge_productivity=True, truth_empty=_truth_empty)
     Finder = ParallelSpecFinder if case["variant"] == "plain" else EqPathParallelSpecFinder
@@ -290,6 +335,9 @@ def run_case(case):
             out = finder.find()
         except Exception as e:  # noqa: BLE001 - totality is the property
             tag = ":assigned-pair-itself-unmatched" if _LAST_SECOND_SEARCH.get("pair_itself_unmatched") else ""
+            if _LAST_SECOND_SEARCH.get("empty_entries"):
+                # the first search handed over pairs of labels for which it recorded no matching at all
+                tag += ":first-search-recorded-pairs-without-a-match"
             cx.violation(f"C13:find-raises:{type(e).__name__}@{base.crash_site(e)}{tag}",
                          f"{Finder.__name__}.find() raised {type(e).__name__}: {str(e)[:300]} "
                          f"(start labels off their representatives: {off_rep})",
@@ -299,11 +347,21 @@ def run_case(case):
             return {"nontrivial": bool(off_rep), "fingerprint": fp(case)}
         spec1, spec2 = out
         cx.count("finder.pairs_returned")
-        for spec, desc, tag in ((spec1, case["c1"], "first"), (spec2, case["c2"], "second")):
+        for spec, desc, tag in (() if fin else ((spec1, case["c1"], "first"), (spec2, case["c2"], "second"))):
             if rw.desc_of(spec.root) != {k: desc.get(k) for k in rw.desc_of(spec.root)} and \
                     rw.key(rw.desc_of(spec.root)) != rw.key(desc):
                 cx.violation("C13:wrong-root", f"{tag} specification is for {spec.root!r}", None)
             searchlib.check_enumeration(spec, desc, case["N"], mech=f"C13:returned-specification-wrong-count")
+        for spec, lang, tag in (((spec1, case["lang1"], "first"), (spec2, case["lang2"], "second")) if fin else ()):
+            if spec.root != finlang.FinLang(lang):
+                cx.violation("C13:wrong-root", f"{tag} specification is for {spec.root!r}", None)
+            for n in range(max(map(len, lang)) + 2):
+                want = sorted(w for w in lang if len(w) == n)
+                cx.count("enum.sizes_compared")
+                if spec.count_objects_of_size(n) != len(want) or sorted(map(str, spec.generate_objects_of_size(n))) != want:
+                    cx.violation("C13:returned-specification-wrong-count",
+                                 f"{tag} specification, size {n}: {spec.count_objects_of_size(n)} objects "
+                                 f"{sorted(map(str, spec.generate_objects_of_size(n)))}, the language has {want}", None)
         ok = Isomorphism.check(spec1, spec2)
         cx.count("finder.pairs_isomorphism_checked")
         if not ok:
@@ -323,7 +381,8 @@ def run_case(case):
             if why == "other" and _LAST_SECOND_SEARCH.get("pair_itself_unmatched"):
                 why = "assigned-pair-itself-unmatched"
             elif why == "other" and unmatched_descendants():
-                why = "unmatched-descendants"
+                why = "unmatched-descendants" if unmatched_descendants() is True else \
+                    "descendant-pair-the-first-search-never-matched"
             cx.violation(f"C13:returned-pair-not-isomorphic:{why}",
                          f"{Finder.__name__} returned a pair for which Isomorphism.check is {ok} (reverse: {rev}); "
                          f"cause: {why}",
